@@ -74,6 +74,14 @@ C["kneeliverse.clustering.centroid_linkage"] = dict(
         "forall2(0, _it0 + 1, lambda p, q: clusters[p] <= clusters[q])",
         "forall(1, _it0 + 1, lambda i: forall(0, i, lambda a: implies((%s), iff(clusters[i] == clusters[i-1] + 1, "
         "absr(points[i][0] - SumRange(points[:, 0], a, i) / (i - a)) / %s >= t))))" % (first_of("clusters", "i-1", "a"), RANGE),
+    ], hints=[
+        "i == _it0 and 1 <= _h_cluster_size and _h_cluster_size <= i",
+        "_h_cluster_center * _h_cluster_size == SumRange(points[:, 0], i - _h_cluster_size, i)",
+        "_h_cluster_center == SumRange(points[:, 0], i - _h_cluster_size, i) / _h_cluster_size",
+        "distance == absr(points[i][0] - SumRange(points[:, 0], i - _h_cluster_size, i) / (i - (i - _h_cluster_size))) / %s" % RANGE,
+        "forall(0, i, lambda a: implies((%s), a == i - _h_cluster_size))" % first_of("clusters", "i-1", "a"),
+        "iff(clusters[i] == clusters[i-1] + 1, distance >= t)",
+        "implies(cluster_size == _h_cluster_size + 1, cluster_center * cluster_size == _h_cluster_center * _h_cluster_size + points[i][0])",
     ])},
 )
 
@@ -94,5 +102,9 @@ C["kneeliverse.clustering.average_linkage"] = dict(
         "forall2(0, _it0 + 1, lambda p, q: clusters[p] <= clusters[q])",
         "forall(1, _it0 + 1, lambda i: forall(0, i, lambda a: implies((%s), iff(clusters[i] == clusters[i-1] + 1, "
         "(Sum(0, i - a, lambda k: absr(points[a + k][0] - points[i][0])) / (i - a)) / %s >= t))))" % (first_of("clusters", "i-1", "a"), RANGE),
+    ], hints=[
+        "i == _it0 and 0 <= _h_idx and _h_idx < i",
+        "distance == (Sum(0, i - _h_idx, lambda k: absr(points[_h_idx + k][0] - points[i][0])) / (i - _h_idx)) / %s" % RANGE,
+        "forall(0, i, lambda a: implies((%s), a == _h_idx))" % first_of("clusters", "i-1", "a"),
     ])},
 )
